@@ -16,7 +16,8 @@ RULE = ('limit M in {1,2,16,100,4096,10^6} x length in {0,1,M-2..M+2,2M,10M} '
         'x {text,binary} x declared length {<,=,> actual} x path {POST, first '
         'frame of a websocket-only session, steady-state frame after upgrade, '
         'probe frame, UPGRADE-position frame, POST mid-upgrade} x packets per '
-        'body 0..18 with max_decode_packets in {1,16} x server(2); quick = the '
+        'body 0..18 (plain and d= form-encoded) with max_decode_packets in '
+        '{1,16} x server(2); quick = the '
         'whole grid with M<=4096, thorough adds M=10^6, chunked ASGI bodies '
         'and seeded random lengths. distinct = distinct (M, length class, '
         'kind, declared, path, server) cells evaluated')
@@ -228,11 +229,16 @@ def run_count_case(rec, case):
     try:
         h = sim.open_polling()
         body = gen.SEP.join('4p%d' % i for i in range(k))
+        if case.get('form') and k:
+            import urllib.parse
+            q = urllib.parse.quote if case['form'] == 'quote' else \
+                urllib.parse.quote_plus
+            body = 'd=' + q(body, safe='')
         n0 = len(sim.events)
         t = sim.post(h, body)
         sim.quiesce()
         rec.count('packet_count_bound')
-        rec.key('count/%d/%d/%s' % (k, limit, srv))
+        rec.key('count/%d/%d/%s/%s' % (k, limit, srv, case.get('form')))
         msgs = [e['data'] for e in sim.events[n0:] if e['ev'] == 'message']
         if len(msgs) > limit:
             rec.viol('too-many-packets-processed', '%d packets of one body '
@@ -282,8 +288,9 @@ def all_cases(tier, seed):
     for k in range(0, 19):
         for limit in (1, 16):
             for srv in ('T', 'A'):
-                cases.append({'kind': 'count', 'k': k, 'limit': limit,
-                              'srv': srv})
+                for form in (None, 'quote', 'plus'):
+                    cases.append({'kind': 'count', 'k': k, 'limit': limit,
+                                  'srv': srv, 'form': form})
     return cases
 
 
